@@ -245,6 +245,7 @@ def run(ctx: Ctx):
     okb = isinstance(blv, vg.S) and any(n.op in ("phi", "ifexp") and "extra" in vg.show(n.args[0], 3) and any(m.op == "meth" and m.args[1] == "eval" for m in vg.walk(n.args[1]))
                                         for n in vg.walk(blv))
     ctx.ob("C16.b", "REINFORCE.calculate_loss:baseline-source", okb, fi.loc, "bl_val, bl_loss = baseline.eval(td, reward, env) unless the batch carries 'extra'", construct="REINFORCE.calculate_loss:baseline-source")
+    reinforce_variants(ctx)
     # ---------------- SymNCO losses
     for nm in ("problem_symmetricity_loss", "solution_symmetricity_loss"):
         fi = ctx.repo.get_function(SYM, nm)
@@ -418,6 +419,65 @@ def run(ctx: Ctx):
         ent = [1 for c, fs in tm if c == -1 and any("entropy_lambda" in vg.show(a, 4) for a, _ in fs) and any(a.op == "meth" and a.args[1] == "mean" for a, _ in fs)]
         ok_t = len(surr) == 1 and len(val) == 1 and len(ent) == 1
     ctx.ob("C16.b", "PPO.shared_step:total-loss", ok_t, pp.loc, f"loss = surrogate + vf_lambda * value_loss - entropy_lambda * mean(entropy): {pl.show(2)[:160]}", construct="PPO.shared_step:total")
+
+
+def reinforce_variants(ctx: Ctx):
+    """C16.b the REINFORCE subclasses that override calculate_loss keep the surrogate: MDAM (reward per path, baseline value
+    unsqueezed to [batch, 1]) and PolyNet / Poppy (only the best rollout of each instance carries the gradient):
+      loss = reinforce_loss + bl_loss,   reinforce_loss = -mean((reward - bl_val) * log_likelihood [* best-rollout indicator]),
+    with the polynomial normal form of the product compared sign-exactly, bl_val taken from baseline.eval unless the batch
+    carries `extra`, and PolyNet's indicator = (rank of the rollout by descending reward along the rollout axis) < 1."""
+    for path, cname, masked in (("rl4co/models/zoo/mdam/model.py", "MDAM", False), ("rl4co/models/zoo/polynet/model.py", "PolyNet", True)):
+        cls = ctx.repo.get_class(path, cname)
+        fi = cls.methods.get("calculate_loss")
+        if fi is None:
+            raise AnalysisError(f"{cname}.calculate_loss not found")
+        ctx.fn(fi)
+        it = vg.Interp(ctx.repo, cls, inline_policy=lambda f, a: False)
+        fr = it.run_function(fi)
+        L = dict(fr.locals)
+        for e in it.events:
+            if e.kind == "methcall" and e.data[1] == "update" and e.data[2] and isinstance(e.data[2][0], vg.S) and e.data[2][0].op == "dict":
+                for it_ in e.data[2][0].args:
+                    if it_.op == "item" and it_.args[0].op == "const":
+                        L[it_.args[0].args[0]] = it_.args[1]
+        need = ("loss", "reinforce_loss", "bl_loss", "bl_val", "reward", "log_likelihood")
+        if not all(isinstance(L.get(k), vg.S) for k in need):
+            ctx.ob("C16.b", f"{cname}.calculate_loss", False, fi.loc, f"values not resolved: {[k for k in need if not isinstance(L.get(k), vg.S)]}", construct=f"{cname}.calculate_loss:formula")
+            continue
+        okl = nf.poly(L["loss"]) == nf.poly(L["reinforce_loss"]) + nf.poly(L["bl_loss"])
+        mon = nf.poly(L["reinforce_loss"]).monos()
+        sign_ok = prod_ok = mask_ok = False
+        mask_ok = not masked
+        if len(mon) == 1 and len(mon[0][1]) == 1:
+            sign_ok = mon[0][0] == -1
+            m = mon[0][1][0][0]
+            if m.op == "meth" and m.args[1] == "mean" and len(m.args) == 2:
+                pin = nf.poly(m.args[0])
+                want = (nf.poly(L["reward"]) - nf.poly(L["bl_val"])) * nf.poly(L["log_likelihood"])
+                extra_f = [a_ for a_ in pin.atoms() if a_.id not in {b_.id for b_ in want.atoms()}]
+                if masked and len(extra_f) == 1:
+                    # the one factor beyond advantage and log-likelihood (found in the product itself, not by its local name)
+                    want = want * nf.Poly.atom(extra_f[0])
+                    c = nf.cmpnf(nf.strip(extra_f[0], True))
+                    if c is not None:
+                        d, op = c
+                        ats = d.atoms()
+                        if len(ats) == 1:
+                            a0 = ats[0]
+                            lin = (op == ">0" and d == nf.Poly.const(1) - nf.Poly.atom(a0)) or (op == ">=0" and d == -nf.Poly.atom(a0)) or (op == "==0" and d == nf.Poly.atom(a0))
+                            inner = nf.strip(a0.args[0]) if a0.op == "meth" and a0.args[1] == "argsort" and nf.axis_is(a0, 1) else None
+                            src = nf.strip(inner.args[0]) if inner is not None and inner.op == "meth" and inner.args[1] == "argsort" and nf.axis_is(inner, 1) else None
+                            desc = src is not None and nf.poly(src) == -nf.poly(L["reward"])
+                            mask_ok = bool(lin and desc)
+                prod_ok = pin == want
+        ok = okl and sign_ok and prod_ok and mask_ok
+        ctx.ob("C16.b", f"{cname}.calculate_loss", ok, fi.loc,
+               f"loss = reinforce_loss + bl_loss: {okl}; reinforce_loss = -mean(.): {sign_ok}; (reward - bl_val) * log_likelihood" + (" * best-rollout indicator" if masked else "") + f": {prod_ok}" +
+               (f"; indicator = rank by descending reward along the rollout axis < 1: {mask_ok}" if masked else ""), construct=f"{cname}.calculate_loss:formula")
+        blv = L.get("bl_val")
+        okb = any(n.op in ("phi", "ifexp") and "extra" in vg.show(n.args[0], 3) and any(m_.op == "meth" and m_.args[1] == "eval" for m_ in vg.walk(n.args[1])) for n in vg.walk(blv))
+        ctx.ob("C16.b", f"{cname}.calculate_loss:baseline-source", okb, fi.loc, "bl_val, bl_loss = baseline.eval(td, reward, env) unless the batch carries 'extra'", construct=f"{cname}.calculate_loss:baseline-source")
 
 
 def _names(s, L):
